@@ -78,7 +78,8 @@ def plot_burst_detect_summary(df_features, sig, fs, threshold_kwargs, xlim=None,
 
     # Normalize signal
     sig_full = zscore(sig)
-    times_full = np.arange(0, len(sig_full) / fs, 1 / fs)
+    #   One time per sample: np.arange(0, n / fs, 1 / fs) can have an extra entry due to rounding
+    times_full = np.arange(len(sig_full)) / fs
 
     # Limit arrays and dataframe
     if xlim is not None:
@@ -112,8 +113,8 @@ def plot_burst_detect_summary(df_features, sig, fs, threshold_kwargs, xlim=None,
 
     for cyc in df_osc.to_dict('records'):
 
-        samp_start_burst = int(cyc['sample_last_' + side_e]) - int(fs * start)
-        samp_end_burst = int(cyc['sample_next_' + side_e] + 1) - int(fs * start)
+        samp_start_burst = int(cyc['sample_last_' + side_e]) - int(round(fs * start))
+        samp_end_burst = int(cyc['sample_next_' + side_e] + 1) - int(round(fs * start))
 
         is_osc[samp_start_burst:samp_end_burst] = True
 
@@ -139,8 +140,8 @@ def plot_burst_detect_summary(df_features, sig, fs, threshold_kwargs, xlim=None,
         # Highlight where a burst param falls below threshold
         for cyc in df_features.to_dict('records'):
 
-            last_cyc = int(cyc['sample_last_' + side_e]) - int(fs * start)
-            next_cyc = int(cyc['sample_next_' + side_e]) - int(fs * start)
+            last_cyc = int(cyc['sample_last_' + side_e]) - int(round(fs * start))
+            next_cyc = int(cyc['sample_next_' + side_e]) - int(round(fs * start))
             #   A cycle may end on the first sample after the limited times
             next_cyc = min(next_cyc, len(times) - 1)
             if cyc[column] < threshold_kwargs[osc_key] and last_cyc > 0:
@@ -221,7 +222,7 @@ def plot_burst_detect_param(df_features, sig, fs, burst_param, thresh,
     color = kwargs.pop('color', 'r')
 
     # Determine time array and limits
-    times = np.arange(0, len(sig) / fs, 1 / fs)
+    times = np.arange(len(sig)) / fs
 
     if ax is None:
         fig, ax = plt.subplots(figsize=figsize)
